@@ -17,10 +17,19 @@ Deliverables, for each change, in the directory %(wt)s/SEEDED/<property id>-<a|b
   patch.diff   - `git diff` of exactly that one change against the worktree's HEAD (apply/revert each change separately: deliver independent patches, each against a clean tree)
   demo.py      - a small self-contained program (run as `PYTHONPATH=<tree> /venv/bin/python demo.py`) that exits 0 on the unchanged tree and exits 1 (printing what went wrong) on the tree with the patch applied, demonstrating the property violation through the project's public behaviour
   meta.json    - {"property": "<id>", "summary": "<one sentence: what the change does>", "needs": "<what specific input / sequence / configuration / interleaving is needed for it to manifest>", "files": [...], "tests_run": "<the pytest command lines you ran and their pass/fail counts>"}
-Before finishing, verify for each patch from a clean tree (`git stash` or `git checkout -- .`): patch applies with `git apply`, demo.py exits 1 with it and 0 without it, test suite unchanged. Never use `git stash` (the stash is shared between worktrees of other people): use `git diff > file`, `git checkout -- .` and `git apply` instead. Leave the worktree clean (no applied patch) at the end, with only the SEEDED/ directory added (untracked). Final answer: a short list of the changes (property, summary, needs) and anything you could not do.
+Before finishing, verify for each patch from a clean tree (`git checkout -- .`): patch applies with `git apply`, demo.py exits 1 with it and 0 without it, test suite unchanged. Never use `git stash` (the stash is shared between worktrees of other people): use `git diff > file`, `git checkout -- .` and `git apply` instead. Leave the worktree clean (no applied patch) at the end, with only the SEEDED/ directory added (untracked). Final answer: a short list of the changes (property, summary, needs) and anything you could not do.
 """ % {"wt": wt, "n": "TWO different changes" })
+import glob, os
 for i in ids:
     p = props[i]
+    prev = []
+    for mp in sorted(glob.glob("/verif/seeded/%s-*/meta.json" % i)):
+        try:
+            prev.append(json.load(open(mp)).get("summary", ""))
+        except Exception:
+            pass
+    if prev and os.environ.get("SEED_ROUND2"):
+        out.append("For %s the following changes have ALREADY been made by someone else - yours must use different mechanisms, in different functions, and need different circumstances to manifest (name your directories %s-c and %s-d):\n%s\n" % (i, i, i, "\n".join("  - " + x for x in prev)))
     out.append("PROPERTY %s - %s\nStatement: %s\nQuantified over: %s\nWhy the existing tests cannot settle it: %s\nCode it is anchored in: %s\n" % (
         i, p["title"], p["statement"], p["quantifier"]["text"], p["why_tests_cant"], ", ".join(p["anchors"]["files"])))
 print("\n".join(out))
